@@ -30,6 +30,31 @@ impl Lane for Q {
         Q::frac(n, d)
     }
 }
+impl Lane for crate::sym::Sym {
+    const NAME: &'static str = "sym";
+    const FIELD: bool = true;
+    fn from_i(v: i64) -> Self { crate::sym::Sym::int(v) }
+    fn enc(self) -> i64 { panic!("a symbolic value has no integer code") }
+    fn encv(self) -> Value { self.enc_poly() }
+    /// a fresh free symbol: every generated operand entry is a distinct variable
+    fn gen(_rng: &mut StdRng) -> Self { crate::sym::Sym::fresh("x") }
+}
+/// Nesting depth of the ring elements of a logged field when they are polynomials ({"p": ..} objects):
+/// 0 scalar, 1 vector, 2 matrix; None for fields that hold no polynomial.
+fn poly_depth(v: &Value) -> Option<u32> {
+    match v {
+        Value::Object(m) if m.contains_key("p") => Some(0),
+        Value::Array(a) if !a.is_empty() => poly_depth(&a[0]).map(|d| d + 1),
+        _ => None,
+    }
+}
+/// Records of the symbolic lane carry `shp`: which fields are polynomials and how deeply nested, so that the
+/// trace specification can decode them (VekField!DecodeRec) before the ordinary actions are evaluated.
+fn add_shape(m: &mut Map<String, Value>) {
+    let mut shp = Map::new();
+    for (k, v) in m.iter() { if let Some(d) = poly_depth(v) { shp.insert(k.clone(), json!(d)); } }
+    if !shp.is_empty() { m.insert("shp".into(), Value::Object(shp)); }
+}
 macro_rules! int_lane { ($($t:ty, $name:expr);+) => {$(
     impl Lane for $t {
         const NAME: &'static str = $name;
@@ -93,6 +118,7 @@ impl Drv {
             None if inc > 0 => { self.inconclusive += 1; return; }
             None => { self.panics += 1; m.insert("pan".into(), json!(1)); m.insert("obs".into(), json!(0)); }
         }
+        add_shape(&mut m);
         *self.per_op.entry(op.to_string()).or_insert(0) += 1;
         self.out.emit(Value::Object(m));
     }
